@@ -2,7 +2,7 @@
 """tools/status_table.py — markdown table of the claimed checks: theorems per property (from coq/Props), last
 evidence (tier, evaluations, obligations), seeded changes caught."""
 import glob, json, os, re
-V = "/verif"
+V = __import__("os").path.dirname(__import__("os").path.dirname(__import__("os").path.abspath(__file__)))   # the tree this tool belongs to (a helper clone works too)
 man = json.load(open(V + "/MANIFEST.json"))
 seeds = json.load(open(V + "/seeded/RESULTS.json")) if os.path.exists(V + "/seeded/RESULTS.json") else {}
 print("| id | Props files | theorems+examples | last evidence: tier / evaluations / obligations | seeded changes (caught/total) |")
